@@ -120,6 +120,19 @@ def generate(tier, rng):
             car = rng.choice(['np.longdouble', 'fxp']) if k == 1 else rng.choice(['arr.longdouble', 'arr.fxp'])
             if all(G.in_c01_domain(n, f, v) for v in vals) and C.ok_for(car, vals):
                 yield _r5(signed, n, f, r, o, car, rng.choice(C.ROUTES if k == 1 else ('ctor', 'call', 'setval', 'tmpl')), vals)
+    # values far below one LSB, down to subnormal doubles, into formats with a negative fraction length: floor and ceil depend on the
+    # sign of a value whose scaled image underflows (scalars of every kind, and arrays)
+    for _ in range(200 if tier == 'quick' else 4000):
+        signed, n, f = G.rand_format(rng)
+        if f >= 0:
+            f = -rng.randint(1, 8)
+        r, o = rng.choice(['floor', 'ceil', 'ceil', 'floor', 'around', 'trunc', 'fix']), rng.choice(OVFS)
+        k = rng.choice([1, 1, 1, 2, 3])
+        vals = [Fraction(rng.choice([1, 1, 2, 3, rng.randint(1, 2 ** 10)]) * rng.choice([1, -1] if signed else [1]), 2 ** rng.choice([1074, 1074, 1070, 1060, 1022]))
+                for _ in range(k)]
+        car = rng.choice(['pyfloat', 'np.float64', 'arr0d']) if k == 1 else rng.choice(['arr.float64', 'list', 'tuple'])
+        if C.ok_for(car, vals):
+            yield _r5(signed, n, f, r, o, car, rng.choice(C.ROUTES), vals)
     for _ in range(nrand // 4):
         signed, n, f = G.rand_format(rng)
         lo, hi = lims(signed, n)
